@@ -133,23 +133,27 @@ package utils
 //@   ensures typeis(result, "*base1DCodeIntCS") && fresh(result)
 //@   ensures asptr(result, "*base1DCodeIntCS").checksum == checksum && asptr(result, "*base1DCodeIntCS").base1DCode.BitList == bars
 //@   ensures asptr(result, "*base1DCodeIntCS").base1DCode.kind == codeKind && asptr(result, "*base1DCodeIntCS").base1DCode.content == content
+//@   ensures bytes(asptr(result, "*base1DCodeIntCS").base1DCode.content) == bytes(content)
 //@   ensures asptr(result, "*base1DCodeIntCS").base1DCode.color == barcode.ColorScheme16
 
 //@ func New1DCodeIntCheckSumWithColor
 //@   ensures typeis(result, "*base1DCodeIntCS") && fresh(result)
 //@   ensures asptr(result, "*base1DCodeIntCS").checksum == checksum && asptr(result, "*base1DCodeIntCS").base1DCode.BitList == bars
 //@   ensures asptr(result, "*base1DCodeIntCS").base1DCode.kind == codeKind && asptr(result, "*base1DCodeIntCS").base1DCode.content == content
+//@   ensures bytes(asptr(result, "*base1DCodeIntCS").base1DCode.content) == bytes(content)
 //@   ensures asptr(result, "*base1DCodeIntCS").base1DCode.color == color
 
 //@ func New1DCode
 //@   ensures typeis(result, "*base1DCode") && fresh(result)
 //@   ensures asptr(result, "*base1DCode").BitList == bars && asptr(result, "*base1DCode").kind == codeKind
 //@   ensures asptr(result, "*base1DCode").content == content && asptr(result, "*base1DCode").color == barcode.ColorScheme16
+//@   ensures bytes(asptr(result, "*base1DCode").content) == bytes(content)
 
 //@ func New1DCodeWithColor
 //@   ensures typeis(result, "*base1DCode") && fresh(result)
 //@   ensures asptr(result, "*base1DCode").BitList == bars && asptr(result, "*base1DCode").kind == codeKind
 //@   ensures asptr(result, "*base1DCode").content == content && asptr(result, "*base1DCode").color == color
+//@   ensures bytes(asptr(result, "*base1DCode").content) == bytes(content)
 
 // ---------------------------------------------------------------- Galois fields (C17)
 
